@@ -69,6 +69,28 @@ theorem depth_cut_include (E : Env) (hl : E.lax = false) (R : String → Prop)
     (render E c s (.include n)).out = .err .contextDepth :=
   include_family_cut E hl R hclosed _ c s n hn hni rfl
 
+/-- **Recursion through a macro is cut off with ContextDepthError** (STRICT mode).  `R`: template names whose bodies
+define a macro — its body beginning, at any block depth, with a `render` of a member — and then call it, at any block
+depth (two context copies per cycle: the `render` and the `call`). -/
+theorem depth_cut_call (E : Env) (hl : E.lax = false) (R : String → Prop)
+    (hclosed : ∀ n, R n → ∃ m ws' n' post' ws post,
+      lookup E.templates n = some (.macro m (nest ws' (.render n') :: post') :: nest ws (.call m) :: post) ∧ R n')
+    (c : Cx) (s : St) (n : String) (hn : R n) :
+    (render E c s (.render n)).out = .err .contextDepth :=
+  call_family_cut E hl R hclosed _ c s n hn rfl
+
+/-- **Recursion through a `block` rendered directly is cut off with ContextDepthError** (STRICT mode, `include` and
+`block` not disabled, no block stacks stored).  `R`: template names whose bodies begin, at any block depth, with a
+`block` whose body begins, at any block depth, with an `include` of a member (three scope pushes per cycle).
+Recursion through an *overriding* block (extends + block + render/include) is covered by `context_depth_bounded` and the
+`families` stream only. -/
+theorem depth_cut_block (E : Env) (hl : E.lax = false) (R : String → Prop)
+    (hclosed : ∀ n, R n → ∃ ws0 bn ws n' post post0,
+      lookup E.templates n = some (nest ws0 (.block bn (nest ws (.include n') :: post)) :: post0) ∧ R n')
+    (c : Cx) (s : St) (n : String) (hn : R n) (hni : c.noInclude = false) (hnb : c.noBlock = false) (hst : s.stacks = []) :
+    (render E c s (.include n)).out = .err .contextDepth :=
+  block_family_cut E hl R hclosed _ c s n hn hni hnb hst rfl
+
 /-- **Circular `extends` is cut off with TemplateInheritanceError.**  `R` is a set of templates each with exactly
 one `extends` whose parent loads and is again in `R` (every `extends` cycle).  Rendering the `extends` tag of a
 member — whatever the context, the block stacks already stored, the mode — raises TemplateInheritanceError:
@@ -124,6 +146,19 @@ theorem lax_cut_counterexample (D : Nat) (h4 : 4 ≤ D) :
   have h1 : 1 ≤ 2 ^ (D + 1) := Nat.one_le_two_pow
   have h2 : 2 ^ (D + 2) = 2 ^ (D + 1) * 2 := by rw [Nat.pow_succ]
   omega
+
+/-- **The LAX fan-out, quantitatively.**  The partial `a` = `{{ 1 | probe }}` followed by `f` self-renders, LAX/WARN
+mode, any limit ≥ 4: the render returns `ok` after exactly `1 + f + f² + … + f^(limit+1)` probe executions
+(`geom f (limit+2)`), i.e. `(f^(limit+2) − 1)/(f − 1)` for `f ≥ 2` (second conjunct: `(f−1)·count + 1 = f^(limit+2)`).
+So the work in LAX mode *is* bounded — by this geometric sum — but the bound is exponential in the limit that was
+meant to cut recursion off; `f = 1` gives the linear `limit + 2`, `f = 2` the `2^(limit+2) − 1` of
+`lax_cut_counterexample`. -/
+theorem lax_fanout_count (D f : Nat) (h4 : 4 ≤ D) :
+    (renderTemplate (fanEnvN true D f) "a").out = .ok ∧
+    (renderTemplate (fanEnvN true D f) "a").evs.length = geom f (D + 2) ∧
+    ((f - 1) * (renderTemplate (fanEnvN true D f) "a").evs.length + 1 = f ^ (D + 2) ∨ f = 0) := by
+  obtain ⟨h1, h2⟩ := fanN_template_lax D f h4
+  exact ⟨h1, h2, by rw [h2]; exact geom_closed f (D + 2)⟩
 
 /-- the instance for the default `context_depth_limit = 30`: more than four thousand million executions -/
 theorem lax_cut_counterexample_default :
@@ -193,12 +228,31 @@ theorem tokens_strictly_consumed (cfg : Cfg) (ends : List String) (d : Nat) (t :
       (blockLoop cfg ends (getNode cfg d t r).1.depth (getNode cfg d t r).1.rest.tail).1.rest ∧
     (blockLoop cfg ends d (t :: r)).1.err =
       (blockLoop cfg ends (getNode cfg d t r).1.depth (getNode cfg d t r).1.rest.tail).1.err :=
-  ⟨wl_tail_lt (getNode cfg d t r).2, blockLoop_step cfg ends d t r hend hok⟩
+  ⟨wl_tail_lt (getNode cfg d t r).2.w, blockLoop_step cfg ends d t r hend hok⟩
 
 /-- No tag parser, and no parse of a whole template, ever leaves more stream than it was given. -/
 theorem parse_never_rewinds (cfg : Cfg) (d : Nat) (t : Tok) (r : List Tok) (ts : List Tok) :
     wl (getNode cfg d t r).1.rest ≤ wl (t :: r) ∧ wl (parseTemplate cfg ts).rest ≤ wl ts :=
-  ⟨(getNode cfg d t r).2, (blockLoop cfg [] 0 ts).2⟩
+  ⟨(getNode cfg d t r).2.w, (blockLoop cfg [] 0 ts).2.w⟩
+
+/-- **Total steps ≤ token count.**  For every token list, mode and nesting limit, the number of completed loop passes
+of a whole parse — all loops together: `_parse`, every nested `parse_block`, `eat_block`, the `elsif` / `case` /
+"ignore extraneous blocks" / comment / doc loops, and the passes over the inner streams of `liquid` tags — is at most the
+weight of the token stream (its tokens plus the line tokens inside `liquid` tags).  The potential that makes this
+compositional is `passes + phi(rest)`, where `phi` counts the current token as 1 whatever it carries: it survives a
+`liquid` tag whose inner parse raises in STRICT mode (the inner passes are paid by an expression token that is still
+unread when the error propagates), where `passes + weight(rest) ≤ weight` is false.  When the parse returns normally
+the stronger form holds too. -/
+theorem parse_steps_le_weight (cfg : Cfg) (ts : List Tok) :
+    (parseTemplate cfg ts).iters ≤ wl ts ∧
+    (parseTemplate cfg ts).iters + phi (parseTemplate cfg ts).rest ≤ wl ts ∧
+    ((parseTemplate cfg ts).err = none → (parseTemplate cfg ts).iters + wl (parseTemplate cfg ts).rest ≤ wl ts) :=
+  ⟨by have := parseTemplate_steps cfg ts; omega, parseTemplate_steps cfg ts, (blockLoop cfg [] 0 ts).2.j⟩
+
+/-- the same for a single `Tag.get_node`: once the calling loop has done its `next(stream)`, the pass is paid for -/
+theorem get_node_pass_paid (cfg : Cfg) (d : Nat) (t : Tok) (r : List Tok) :
+    (getNode cfg d t r).1.iters + 1 + wl (getNode cfg d t r).1.rest.tail ≤ wl (t :: r) :=
+  (getNode cfg d t r).2.n
 
 /-- **The `{% case %}` loop cannot spin at the end of input** (the 2.2.1 hang): at EOF the
 `while not stream.current.is_tag("endcase")` loop raises LiquidSyntaxError at once … -/
